@@ -27,6 +27,9 @@ def bounds(tier):
     return dict(n_max=tier_pick(tier, 14, 24), features_max=2, parts_max=2, k="unbounded integer")
 
 
+FTYPES = ["source", "CDS"]
+
+
 def _flip_strand(st):
     if st is None:
         return None
@@ -39,7 +42,8 @@ def _make(ctx, n, shape, strand):
     feats, specs = [], []
     for fi, nparts in enumerate(shape):
         parts = mk_parts(ctx, "f%d" % fi, nparts, n, strand=strand)
-        feats.append(build_feature(st, parts, "CDS", {"label": ["f%d" % fi]}, fid="id%d" % fi))
+        feats.append(build_feature(st, parts, FTYPES[fi % len(FTYPES)] if ctx.P.get("source") else "CDS",
+                                   {"label": ["f%d" % fi]}, fid="id%d" % fi))
         specs.append(parts)
     rec = st.record.CircularRecord(st.Seq(r), id="rid", name="rn", description="rd", features=feats,
                                    annotations={"topology": "circular"})
@@ -86,7 +90,8 @@ def ob_rc(ctx):
     all_none = P["strand"] is None
     for fi, parts in enumerate(specs):
         g = fo.get("id%d" % fi)
-        ctx.require(g is not None and g.type == "CDS" and dict(g.qualifiers) == {"label": ["f%d" % fi]}, "feature-identity")
+        want_type = FTYPES[fi % len(FTYPES)] if P.get("source") else "CDS"
+        ctx.require(g is not None and g.type == want_type and dict(g.qualifiers) == {"label": ["f%d" % fi]}, "feature-identity")
         _mirrored(ctx, parts, parts_of(g), n, "flip-f%d" % fi, all_none)
     back = out.reverse_complement()
     ctx.require(isinstance(back, st.record.CircularRecord), "type-twice")
@@ -183,6 +188,12 @@ def obligations(tier, seed):
             obs.append(Ob("rc " + name, ob_rc, dict(n=n, shape=shape, strand=strand), samples=5, cost=c))
             if n <= tier_pick(tier, 14, 24) and sum(shape) <= 2:
                 obs.append(Ob("commute " + name, ob_commute, dict(n=n, shape=shape, strand=strand), samples=5, cost=3 * c))
+    for n in ((2, 5, 8) if tier == "quick" else (2, 3, 5, 8, 12, 16)):
+        for shape in ((1,), (2,), (1, 1)):
+            obs.append(Ob("rc n=%d shape=%s with source-typed features" % (n, "+".join(map(str, shape))), ob_rc,
+                          dict(n=n, shape=shape, strand="sym", source=True), samples=5, cost=n * 20))
+        obs.append(Ob("commute n=%d with a source-typed feature" % n, ob_commute,
+                      dict(n=n, shape=(1,), strand="sym", source=True), samples=5, cost=n * 40))
     obs.append(Ob("subclass and argument pass-through", ob_subclass, {}, samples=2, cost=1))
     for n in ((3, 6) if tier == "quick" else (2, 3, 5, 8, 10)):
         for edit_seq in (False, True):
